@@ -1,3 +1,16 @@
 #!/bin/bash
-# Builds the reference adapters (Java classes, Rust binary). Offline.
-exit 0
+# Builds the reference adapters (Java classes, Rust binary) into /verif/build. Offline.
+set -e
+cd "$(dirname "$0")/.."
+mkdir -p build/java build/rust
+export CARGO_NET_OFFLINE=true PATH="$PATH:/root/.cargo/bin"
+if [ ! -x build/semref ] || [ ref/rust/src/main.rs -nt build/semref ]; then
+  (cd ref/rust && CARGO_TARGET_DIR=../../build/rust cargo build --offline --release -q) && cp build/rust/release/semref build/semref
+fi
+for f in ref/java/*.java; do
+  c=build/java/$(basename "${f%.java}").class
+  if [ ! -f "$c" ] || [ "$f" -nt "$c" ]; then
+    javac -nowarn -cp "/usr/share/maven/lib/*" -d build/java "$f"
+  fi
+done
+echo "reference adapters ready"
